@@ -688,7 +688,7 @@ def replay(path):
         hit = operations_oracle(rp["op"], e, v, rp["quiet"], o)
         print(json.dumps({"op": rp["op"], "expr": rp["expr"], "value": rp["value"], "observed": o, "oracle": hit}, default=str))
         return 1 if hit else 0
-    if r.get("kind") == "no-failing-input-found":
+    if r.get("kind") == "no-failing-input-found" or rp.get("kind") in ("in-operation", "value-clause"):
         # a broken proof / translator / correspondence without a failing input: re-run the whole check on the current tree
         import subprocess
         rc = subprocess.call([os.path.join(lib.ROOT, "check"), "C16", "--tier", "quick"])
